@@ -208,6 +208,29 @@ fn same_range(a: (usize, usize), b: (usize, usize)) -> bool {
     a.1 == b.1 && (a.1 == 0 || a.0 == b.0)
 }
 
+/// `vlan()` / `vlan_ids()` of the struct results re-derive what `link_exts` already says
+fn struct_vlan_views(api: &str, case: &mut Case, link_exts: &[LinkExtHeader], vlan: Option<VlanHeader>, ids: &[VlanId]) {
+    let tags: Vec<&SingleVlanHeader> = link_exts
+        .iter()
+        .filter_map(|e| match e {
+            LinkExtHeader::Vlan(v) => Some(v),
+            _ => None,
+        })
+        .collect();
+    let want: Option<VlanHeader> = match tags.len() {
+        0 => None,
+        1 => Some(VlanHeader::Single(tags[0].clone())),
+        _ => Some(VlanHeader::Double(DoubleVlanHeader { outer: tags[0].clone(), inner: tags[1].clone() })),
+    };
+    if vlan != want {
+        case.fail(format!("derived-view:{}:vlan", api), format!("{}: vlan() = {:?}, link_exts holds the VLAN tags {:?}", api, vlan, tags));
+    }
+    let want_ids: Vec<VlanId> = tags.iter().map(|t| t.vlan_id).collect();
+    if ids != &want_ids[..] {
+        case.fail(format!("derived-view:{}:vlan_ids", api), format!("{}: vlan_ids() = {:?}, link_exts holds {:?}", api, ids, want_ids));
+    }
+}
+
 #[allow(clippy::too_many_arguments)]
 fn compare(
     api: &'static str,
@@ -307,6 +330,7 @@ pub fn check_case(door: Door, b: &[u8], case: &mut Case) {
                         case.fail(format!("exception-bookkeeping:{}", api), "slicing result holds an unfit extension header but the reference sees none".to_string());
                     }
                     compare(api, case, &c, &h.link, &h.link_exts[..], &h.net, &h.transport, (rel(b, h.payload.slice()), strict_variant(&h.payload)), ex_s);
+                    struct_vlan_views(api, case, &h.link_exts[..], h.vlan(), &h.vlan_ids()[..]);
                     if ex_s {
                         // struct payload: from the header that does not fit, named by its protocol number
                         if let (PayloadSlice::Ip(ip), Some(n)) = (&h.payload, ws_s.net()) {
@@ -343,6 +367,7 @@ pub fn check_case(door: Door, b: &[u8], case: &mut Case) {
             (Some(h), Some(s)) => match conv_lax(b, s) {
                 Ok(c) => {
                     compare(api, case, &c, &h.link, &h.link_exts[..], &h.net, &h.transport, (rel(b, h.payload.slice()), super::c05::payload_variant(&h.payload)), ex_l);
+                    struct_vlan_views(api, case, &h.link_exts[..], h.vlan(), &h.vlan_ids()[..]);
                     if ex_l {
                         if let (LaxPayloadSlice::Ip(ip), Some(n)) = (&h.payload, ws_l.net()) {
                             if !same_range(rel(b, ip.payload).unwrap_or((usize::MAX, 0)), n.pay) {
